@@ -575,10 +575,14 @@ class SpecMixin:
                     if self.tt[tid].get('s') == tn:
                         cache[tn] = tid; break
                 else:
-                    raise Unsupported('typeis: no type printed as %s in the type table' % tn)
+                    # a type the code under contract never mentions: a tag of its own, different from every tag of the table
+                    extra = self.__dict__.setdefault('_extra_type_tags', {})
+                    extra.setdefault(tn, -1 - len(extra))
+                    cache[tn] = ('extra', extra[tn])
             if x.tag is None:
                 raise Unsupported('typeis: interface value without a dynamic type tag')
-            return z3.And(x.ref != 0, x.tag == self.type_tag(cache[tn]))
+            tg = z3.IntVal(cache[tn][1]) if isinstance(cache[tn], tuple) else self.type_tag(cache[tn])
+            return z3.And(x.ref != 0, x.tag == tg)
         if name == 'asptr':        # asptr(r, "pkg.Type"): the pointer to the object with reference r, typed *pkg.Type
             r = self.sev(env, args[0])
             tn = args[1][1].decode() if isinstance(args[1][1], bytes) else args[1][1]
